@@ -9,6 +9,7 @@ import (
 	"io"
 	"runtime"
 	"runtime/metrics"
+	"strings"
 	"time"
 
 	"github.com/gopacket/gopacket"
@@ -277,6 +278,93 @@ func buildNg(c *sim.Ctx) *fb {
 	return f
 }
 
+// inflate adds one large amount to the length fields of one record or block
+// that have to agree with each other (capture length, original length, record
+// or block length, secrets / option length), so that the claim passes the
+// reader's consistency checks although the bytes are not there: "a 4 GiB
+// capture length in a 400-byte file".
+func inflate(c *sim.Ctx, f *fb, data []byte, what int) {
+	type group struct{ outer, inner, opts []field }
+	var groups []group
+	isLen := func(n string) bool {
+		switch n {
+		case "rec.caplen", "rec.len", "srec.origlen", "srec.inclen", "srec.reclen",
+			"epb.caplen", "epb.len", "spb.len", "pb.caplen", "pb.len", "dsb.slen", "nrb.rlen":
+			return true
+		}
+		return false
+	}
+	isOptLen := func(n string) bool { return strings.HasSuffix(n, ".len") && strings.Contains(n, ".opt") }
+	switch what {
+	case 1:
+		for i := 0; i < len(f.fields); i++ {
+			n := f.fields[i].name
+			if len(n) > 5 && n[len(n)-5:] == ".type" && i+1 < len(f.fields) && f.fields[i+1].name == n[:len(n)-5]+".len" {
+				g := group{outer: []field{f.fields[i+1]}}
+				for j := i + 2; j < len(f.fields) && f.fields[j].name != n[:len(n)-5]+".len2"; j++ {
+					if isLen(f.fields[j].name) {
+						g.inner = append(g.inner, f.fields[j])
+					}
+					if isOptLen(f.fields[j].name) {
+						g.opts = append(g.opts, f.fields[j])
+					}
+				}
+				groups = append(groups, g)
+			}
+		}
+	default:
+		first := map[int]string{0: "rec.sec", 2: "srec.origlen"}[what]
+		for i := 0; i < len(f.fields); i++ {
+			if f.fields[i].name == first {
+				var g group
+				for j := i; j < len(f.fields) && (j == i || f.fields[j].name != first); j++ {
+					if isLen(f.fields[j].name) {
+						g.inner = append(g.inner, f.fields[j])
+					}
+				}
+				groups = append(groups, g)
+			}
+		}
+	}
+	if len(groups) == 0 {
+		return
+	}
+	g := groups[c.Draw(len(groups))]
+	amounts := []uint64{1 << 16, 1 << 20, 1 << 24, 1 << 27, 0x7ffff000, 0xf0000000, 4096}
+	d := amounts[c.Draw(len(amounts))]
+	add := func(fl field) {
+		if fl.off+fl.size > len(data) {
+			return
+		}
+		if fl.size == 4 {
+			f.order().PutUint32(data[fl.off:], f.order().Uint32(data[fl.off:])+uint32(d))
+		} else if fl.size == 2 {
+			f.order().PutUint16(data[fl.off:], f.order().Uint16(data[fl.off:])+uint16(d>>12))
+		}
+		c.Evs("inflate", fmt.Sprintf("%s@%d+=%#x", fl.name, fl.off, d))
+	}
+	for _, fl := range g.outer {
+		add(fl)
+	}
+	if len(g.opts) > 0 && (len(g.inner) == 0 || c.Chance(250)) {
+		// the block and one of its options claim the extra length
+		add(g.opts[c.Draw(len(g.opts))])
+		c.Fault("consistent_length_inflation")
+		return
+	}
+	// every inner length by default (the consistent claim); sometimes one is left out
+	skip := -1
+	if len(g.inner) > 1 && c.Chance(300) {
+		skip = c.Draw(len(g.inner))
+	}
+	for i, fl := range g.inner {
+		if i != skip {
+			add(fl)
+		}
+	}
+	c.Fault("consistent_length_inflation")
+}
+
 // hugeSnaplen decompresses as much of a (possibly damaged) gzip stream as it
 // can and reports whether a declared snap length in it exceeds 1 MiB.
 func hugeSnaplen(what int, z []byte) bool {
@@ -453,8 +541,10 @@ func simC15(c *sim.Ctx) {
 	data := append([]byte(nil), f.b...)
 	var declared uint64
 	// corruption
-	kind := c.Weighted(2, 5, 1, 1)
+	kind := c.Weighted(2, 5, 1, 1, 2)
 	switch kind {
+	case 4: // consistent inflation: one record or block claims to be huge, in all the fields that must agree
+		inflate(c, f, data, what)
 	case 1: // one or two named fields
 		for k := 0; k <= c.Weighted(3, 1); k++ {
 			fl := f.fields[c.Draw(len(f.fields))]
